@@ -801,7 +801,8 @@ pub fn orchestrate(p: &Property, tier: Tier, only_sub: Option<&str>) -> i32 {
         "wall_s": wall,
         "violations": violations,
     });
-    let evdir = Path::new(VERIF_DIR).join("evidence");
+    // dev helpers that run the checks against a deliberately broken tree point this elsewhere
+    let evdir = std::env::var("VERIF_EVIDENCE_DIR").map(PathBuf::from).unwrap_or_else(|_| Path::new(VERIF_DIR).join("evidence"));
     let _ = std::fs::create_dir_all(&evdir);
     if only_sub.is_none() {
         let _ = std::fs::write(
@@ -870,7 +871,7 @@ pub fn run_fuzz(ctx: &ShardCtx, target: &str, props: &str) -> ShardResult {
             .collect();
         let _ = std::fs::write(corpus.join(format!("seed-{}", i)), bytes);
     }
-    let runs: u64 = std::env::var("VERIF_FUZZ_RUNS").ok().and_then(|s| s.parse().ok()).unwrap_or(ctx.tier.pick(20_000, 300_000));
+    let runs: u64 = std::env::var("VERIF_FUZZ_RUNS").ok().and_then(|s| s.parse().ok()).unwrap_or(ctx.tier.pick(20_000, if target == "hist_target" { 120_000 } else { 200_000 }));
     let stats_file = dir.join("stats.json");
     let replay_file = dir.join("violation.json");
     let out = Command::new(&bin)
@@ -878,8 +879,10 @@ pub fn run_fuzz(ctx: &ShardCtx, target: &str, props: &str) -> ShardResult {
         .arg(format!("-runs={}", runs))
         .arg(format!("-seed={}", (ctx.shard_seed(78) % 0x7fff_ffff) + 1))
         .arg("-len_control=0")
-        .arg("-max_len=3000")
+        .arg(if target == "hist_target" { "-max_len=900" } else { "-max_len=1500" })
         .arg("-print_final_stats=1")
+        // leak detection is not part of any property's claim and reports thread-teardown noise
+        .arg("-detect_leaks=0")
         .arg(format!("-artifact_prefix={}/", dir.display()))
         .env("VERIF_FUZZ_PROPS", props)
         .env("VERIF_FUZZ_STATS", &stats_file)
